@@ -20,8 +20,10 @@ class Srv:
         self.handle_call = hc[0] if hc else None
         self.handle_call_fn = self.handle_call.path.rsplit('::{closure#0}', 1)[0] if self.handle_call else None
         gn = []
-        for b in C.methods(crate, 'server::Server'):
-            co = C.async_body(crate, b)
+        cands = [C.async_body(crate, b) for b in C.methods(crate, 'server::Server')]
+        # ... or a free async function of the server modules (the method never used `self`)
+        cands += [b for b in crate.bodies if b.is_coroutine and not b.in_test and b.path.startswith('server::') and b.path.endswith('::{closure#0}') and b not in cands]
+        for co in cands:
             if co is not self.run and any('SelectAll' in (t['callee'].get('def') or '') for _, t in co.iter_terms('call')) and \
                     any(t['callee'].get('name') == 'receive_call' for cb in C.nested(crate, co) + [co] for _, t in cb.iter_terms('call')):
                 gn.append(co)
